@@ -34,7 +34,7 @@ let state_string (g : Admission.group) =
 let result_string r =
   let open Admission in
   match r with
-  | RAdmitted -> "admitted"
+  | RAccepted -> "admitted"
   | RAuth -> "auth"
   | RLocked m -> "locked:" ^ hex_of_str m
   | RNotOpen -> "notopen"
